@@ -67,22 +67,6 @@ type violation struct{ check, msg string }
 
 func viol(check, f string, a ...any) *violation { return &violation{check, fmt.Sprintf(f, a...)} }
 
-func dg1Bytes(m string) []byte {
-	tl := func(tag []byte, v []byte) []byte {
-		out := append([]byte{}, tag...)
-		switch n := len(v); {
-		case n < 0x80:
-			out = append(out, byte(n))
-		case n < 0x100:
-			out = append(out, 0x81, byte(n))
-		default:
-			out = append(out, 0x82, byte(n>>8), byte(n))
-		}
-		return append(out, v...)
-	}
-	return tl([]byte{0x61}, tl([]byte{0x5f, 0x1f}, []byte(m)))
-}
-
 func safeDecode(s string) (m *gmrz.MRZ, err error, panicked any) {
 	defer func() {
 		if r := recover(); r != nil {
@@ -125,6 +109,13 @@ func keyFieldDisagrees(p *refmrz.Parsed) string {
 	return ""
 }
 
+// ignoreKnown switches the exclusion of the open known findings off (probes
+// and replays must show the raw behaviour).  Tests of a package run one after
+// the other, so a package variable is safe.
+var ignoreKnown bool
+
+func open(key string) bool { return !ignoreKnown && evid.Open(prop, key) }
+
 // examine runs every oracle on one string.  It is a pure function of s (and of
 // the open/fixed state of the known findings).
 func examine(s string) (*violation, outcome) {
@@ -142,7 +133,7 @@ func examine(s string) (*violation, outcome) {
 	o.Accepted = err == nil
 
 	// the DG1 path must agree with the direct path
-	dg1, derr := document.NewDG1(dg1Bytes(s))
+	dg1, derr := document.NewDG1(refmrz.EncodeDG1(s))
 	if (derr == nil) != o.Accepted {
 		return viol("dg1", "NewDG1 error=%v but MrzDecode error=%v", derr, err), o
 	}
@@ -166,7 +157,7 @@ func examine(s string) (*violation, outcome) {
 
 	// ---- A: accepted => no disagreement
 	if o.Accepted && !r.OutOfDomain && len(r.Check) > 0 {
-		if inComposite(r) && len(r.Check) == 1 && evid.Open(prop, kComposite) {
+		if inComposite(r) && len(r.Check) == 1 && open(kComposite) {
 			o.Excluded = kComposite
 		} else {
 			return viol("accepts-bad-check-digit", "MrzDecode accepts although %s", strings.Join(r.Check, "; ")), o
@@ -213,7 +204,7 @@ func examine(s string) (*violation, outcome) {
 		if perr != nil {
 			return viol("keyseed", "MrzDecode accepts but NewPasswordMrz fails: %v", perr), o
 		}
-		if inKeySeed(r) && evid.Open(prop, kKeySeed) {
+		if inKeySeed(r) && open(kKeySeed) {
 			if o.Excluded == "" {
 				o.Excluded = kKeySeed
 			}
@@ -437,7 +428,7 @@ func sweep(t failer, d *doc, insSym byte) {
 func TestSubstitutionSweep(t *testing.T) {
 	evid.RapidCheck(t, 48, 4800, func(rt *rapid.T) {
 		d := genDoc(rt)
-		ins := rapid.SampledFrom(symAll).Draw(rt, "insert-symbol")
+		ins := pick(rt, "insert-symbol", symAll)
 		if !refmrz.Analyse(d.MRZ).Valid() {
 			evid.Infra(rt, "generator produced an invalid zone %q", d.MRZ)
 		}
@@ -458,11 +449,11 @@ func TestTargetedMutations(t *testing.T) {
 	evid.RapidCheck(t, 24000, 2400000, func(rt *rapid.T) {
 		d := genDoc(rt)
 		s, l := d.MRZ, d.F.Layout
-		kind := rapid.SampledFrom(kinds).Draw(rt, "kind")
+		kind := pick(rt, "kind", kinds)
 		mut := mutation{Kind: kind, Pos: -1}
 		drawField := func(names []string) (int, int) {
 			for tries := 0; ; tries++ {
-				lo, hi := fieldSpan(l, rapid.SampledFrom(names).Draw(rt, "field"))
+				lo, hi := fieldSpan(l, pick(rt, "field", names))
 				if lo >= 0 {
 					return lo, hi
 				}
@@ -476,28 +467,28 @@ func TestTargetedMutations(t *testing.T) {
 		}
 		switch kind {
 		case "sub":
-			mut.Pos = rapid.IntRange(0, len(s)-1).Draw(rt, "pos")
-			c := rapid.SampledFrom(symAll).Draw(rt, "sym")
+			mut.Pos = uniRange(rt, "pos", 0, len(s)-1)
+			c := pick(rt, "sym", symAll)
 			mut.Sym = string(c)
 			s = substitute(s, mut.Pos, c)
 		case "sub-same-value":
-			mut.Pos = rapid.IntRange(0, len(s)-1).Draw(rt, "pos")
-			c := rapid.SampledFrom(sameValueSymbols(s[mut.Pos])).Draw(rt, "sym")
+			mut.Pos = uniRange(rt, "pos", 0, len(s)-1)
+			c := pick(rt, "sym", sameValueSymbols(s[mut.Pos]))
 			mut.Sym = string(c)
 			s = substitute(s, mut.Pos, c)
 		case "sub2":
-			mut.Pos, mut.Pos2 = rapid.IntRange(0, len(s)-1).Draw(rt, "pos"), rapid.IntRange(0, len(s)-1).Draw(rt, "pos2")
-			s = substitute(s, mut.Pos, rapid.SampledFrom(symAll).Draw(rt, "sym"))
-			s = substitute(s, mut.Pos2, rapid.SampledFrom(symAll).Draw(rt, "sym2"))
+			mut.Pos, mut.Pos2 = uniRange(rt, "pos", 0, len(s)-1), uniRange(rt, "pos2", 0, len(s)-1)
+			s = substitute(s, mut.Pos, pick(rt, "sym", symAll))
+			s = substitute(s, mut.Pos2, pick(rt, "sym2", symAll))
 		case "field-fixed-composite-stale", "all-fixed", "composite-fixed-field-stale":
 			lo, hi := drawField(checked)
-			mut.Pos = rapid.IntRange(lo, hi-1).Draw(rt, "pos")
-			c := rapid.SampledFrom(symAlnum).Draw(rt, "sym")
+			mut.Pos = uniRange(rt, "pos", lo, hi-1)
+			c := pick(rt, "sym", symAlnum)
 			mut.Sym = string(c)
 			s = substitute(s, mut.Pos, c)
 			s = recompute(s, kind != "composite-fixed-field-stale", kind != "field-fixed-composite-stale")
 		case "transpose":
-			mut.Pos = rapid.IntRange(0, len(s)-2).Draw(rt, "pos")
+			mut.Pos = uniRange(rt, "pos", 0, len(s)-2)
 			s = transpose(s, mut.Pos)
 		case "cd-to-filler":
 			lo, _ := drawField(cds)
@@ -531,7 +522,7 @@ func TestTargetedMutations(t *testing.T) {
 					blank(lo, hi)
 				}
 			}
-			c := rapid.SampledFrom([]byte("<0<0123456789AKU")).Draw(rt, "composite-sym")
+			c := pick(rt, "composite-sym", []byte("<0<0123456789AKU"))
 			mut.Sym = string(c)
 			s = substitute(s, cdPositions[l].composite, c)
 		}
@@ -545,16 +536,23 @@ func TestTargetedMutations(t *testing.T) {
 
 // TestArbitraryStrings: strings that do not come from a valid document.
 func TestArbitraryStrings(t *testing.T) {
-	lengths := rapid.OneOf(
-		rapid.SampledFrom([]int{72, 88, 90}),
-		rapid.SampledFrom([]int{72, 88, 90}),
-		rapid.SampledFrom([]int{0, 1, 29, 30, 36, 44, 71, 73, 87, 89, 91, 144, 176, 180}),
-		rapid.IntRange(0, 200),
-	)
+	drawLen := func(rt *rapid.T) int {
+		switch uni(rt, "len-kind", 4) {
+		case 0, 1:
+			return pick(rt, "len", []int{72, 88, 90})
+		case 2:
+			return pick(rt, "len", []int{0, 1, 29, 30, 36, 44, 71, 73, 87, 89, 91, 144, 176, 180})
+		}
+		return uniRange(rt, "len", 0, 200)
+	}
+	allBytes := make([]byte, 256)
+	for i := range allBytes {
+		allBytes[i] = byte(i)
+	}
 	bad := []byte(" >?*az\x00\x7f\x80\xc3\xa9\xff\n-.")
 	evid.RapidCheck(t, 16000, 1600000, func(rt *rapid.T) {
-		n := lengths.Draw(rt, "len")
-		kind := rapid.SampledFrom([]string{"alphabet", "filler-heavy", "digits-heavy", "check-digits-consistent", "bad-symbols", "bytes"}).Draw(rt, "kind")
+		n := drawLen(rt)
+		kind := pick(rt, "kind", []string{"alphabet", "filler-heavy", "digits-heavy", "check-digits-consistent", "bad-symbols", "bytes"})
 		var s string
 		switch kind {
 		case "alphabet":
@@ -564,16 +562,16 @@ func TestArbitraryStrings(t *testing.T) {
 			if kind == "digits-heavy" {
 				heavy = '0'
 			}
-			rare := rapid.IntRange(0, 6).Draw(rt, "rare")
+			rare := uniRange(rt, "rare", 0, 6)
 			b := bytes.Repeat([]byte{heavy}, n)
 			for i := 0; i < rare && n > 0; i++ {
-				b[rapid.IntRange(0, n-1).Draw(rt, "rare-pos")] = rapid.SampledFrom(symAll).Draw(rt, "rare-sym")
+				b[uniRange(rt, "rare-pos", 0, n-1)] = pick(rt, "rare-sym", symAll)
 			}
 			s = string(b)
 		case "check-digits-consistent":
 			// random content over the alphabet, then every check digit made right
 			if !supportedLen(n) {
-				n = rapid.SampledFrom([]int{72, 88, 90}).Draw(rt, "len2")
+				n = pick(rt, "len2", []int{72, 88, 90})
 			}
 			s = drawStr(rt, "s", symAll, n)
 			if rapid.Bool().Draw(rt, "not-truncated-form") {
@@ -582,13 +580,13 @@ func TestArbitraryStrings(t *testing.T) {
 			s = recompute(s, true, true)
 		case "bad-symbols":
 			b := []byte(drawStr(rt, "s", symAll, n))
-			k := rapid.IntRange(1, 3).Draw(rt, "bad-count")
+			k := uniRange(rt, "bad-count", 1, 3)
 			for i := 0; i < k && n > 0; i++ {
-				b[rapid.IntRange(0, n-1).Draw(rt, "bad-pos")] = rapid.SampledFrom(bad).Draw(rt, "bad-sym")
+				b[uniRange(rt, "bad-pos", 0, n-1)] = pick(rt, "bad-sym", bad)
 			}
 			s = string(b)
 		case "bytes":
-			s = string(rapid.SliceOfN(rapid.Byte(), n, n).Draw(rt, "bytes"))
+			s = drawStr(rt, "bytes", allBytes, n)
 		}
 		cl := "arbitrary-" + kind
 		if !supportedLen(len(s)) {
@@ -625,21 +623,12 @@ func TestKnownFindings(t *testing.T) {
 	}
 }
 
-// examineNoExclusion re-implements the two excluded sub-checks for a probe.
+// examineNoExclusion is examine with the known-finding exclusions off.
 func examineNoExclusion(s string) *violation {
-	r := refmrz.Analyse(s)
-	dec, err, _ := safeDecode(s)
-	if err != nil || dec == nil {
-		return nil
-	}
-	if len(r.Check) > 0 {
-		return viol("accepts-bad-check-digit", "MrzDecode accepts %q although %s", s, strings.Join(r.Check, "; "))
-	}
-	pw, perr := password.NewPasswordMrz(s)
-	if perr != nil {
-		return nil
-	}
-	return keyRoutes(s, dec, pw, r)
+	ignoreKnown = true
+	defer func() { ignoreKnown = false }()
+	v, _ := examine(s)
+	return v
 }
 
 // TestRegressionSpecimens: the ICAO specimen zones and the zones of the
@@ -694,7 +683,7 @@ func TestReplayJSON(t *testing.T) {
 		}
 		s = string(raw)
 	}
-	if v, _ := examine(s); v != nil {
+	if v := examineNoExclusion(s); v != nil {
 		t.Fatalf("VIOLATION reproduced: %s: %s", v.check, v.msg)
 	}
 	if len(docu.Case.Fields) > 0 {
